@@ -48,9 +48,9 @@ def replay_file(path):
     if hasattr(mod, "warmup"):
         mod.warmup("quick")
     core.fresh_modules()
-    vs1 = mod.replay(body["case"])
+    vs1 = core.replay_case(mod, body["case"])
     core.fresh_modules()
-    vs2 = mod.replay(body["case"])
+    vs2 = core.replay_case(mod, body["case"])
     s1 = sorted((v["signature"], json.dumps(v.get("observed"), sort_keys=True)) for v in vs1)
     s2 = sorted((v["signature"], json.dumps(v.get("observed"), sort_keys=True)) for v in vs2)
     if s1 != s2:
@@ -85,9 +85,9 @@ def finish(mod, prop, tier, seed, acc, info, wall, write_evidence=True):
     for sig, v in sorted(acc.violations.items()):
         try:
             core.fresh_modules()
-            r1 = mod.replay(v["case"])
+            r1 = core.replay_case(mod, v["case"])
             core.fresh_modules()
-            r2 = mod.replay(v["case"])
+            r2 = core.replay_case(mod, v["case"])
         except Exception as e:  # noqa: BLE001
             unstable.append((sig, f"replay raised {e!r}"))
             continue
